@@ -364,6 +364,15 @@ func (g *wGen) newConn(id string) *wConn {
 	}
 	g.sc.emit(fmt.Sprintf("conn %s srv=%d wbuf=%d pool=%d nego=%d", id, b2i(wc.srv), wc.wbuf, b2i(wc.pool), b2i(wc.nego)), "ok")
 	g.conns = append(g.conns, wc)
+	if wc.nego && r.Intn(3) == 0 {
+		// a compression level from the start, the "no compression" level 0 (still RSV1 + deflate
+		// stored blocks) among them
+		l := []int{0, 0, 1, -2, 9}[r.Intn(5)]
+		if err := wc.c.SetCompressionLevel(l); err == nil {
+			wc.level = l
+		}
+		g.sc.emit(fmt.Sprintf("scl %s %d", wc.id, l), "ok")
+	}
 	return wc
 }
 
